@@ -1,5 +1,6 @@
 import Driver.Common
 import Rpki.Model.X509
+import Rpki.Model.Instant
 namespace Driver.C17
 open Driver Rpki.X509
 
@@ -28,9 +29,10 @@ def decBoth (tag : TimeTag) (b : Bytes) : String :=
   | _, _ => "decoders-disagree"
 
 /-- number of round-tripping (day, time-of-day) cases in the years `[y0, y1]` on the model -/
-def sweep (y0 y1 : Nat) : Nat × Nat := Id.run do
+def sweep (y0 y1 : Nat) : Nat × Nat × Int := Id.run do
   let mut n := 0
   let mut bad := 0
+  let mut tsum : Int := 0
   for y in [y0:y1+1] do
     for m in [1:13] do
       for d in [1:32] do
@@ -38,9 +40,11 @@ def sweep (y0 y1 : Nat) : Nat × Nat := Id.run do
           let c : Civil := ⟨y, m, d, hms.1, hms.2.1, hms.2.2⟩
           if validCivil c then
             n := n + 1
+            -- `Time::timestamp` of every case, summed modulo 2^64 (ties `Model/Instant.lean` to chrono)
+            tsum := (tsum + unixOf c) % 18446744073709551616
             let (tag, bytes) := encodeVaried c
             if decodeTime tag bytes ≠ some c ∨ decodeTimeOpt tag bytes ≠ some c then bad := bad + 1
-  return (n, bad)
+  return (n, bad, tsum)
 
 def cmpStr (a b : Nat) : String := showOrd (some (compare a b))
 
@@ -78,9 +82,9 @@ def handle (toks : List String) (impl : String) : Verdict :=
   | ["sweep", y0, y1] =>
     match y0.toNat?, y1.toNat? with
     | some y0, some y1 =>
-      let (n, bad) := sweep y0 y1
-      { model := some s!"ok {n} {bad}",
-        oracle := if impl = s!"ok {n} 0" then none else some s!"calendar says {n} cases, all must round-trip" }
+      let (n, bad, tsum) := sweep y0 y1
+      { model := some s!"ok {n} {bad} {tsum}",
+        oracle := if impl.startsWith s!"ok {n} 0 " then none else some s!"calendar says {n} cases, all must round-trip" }
     | _, _ => badOp "num"
   | ["validity", nb, na, now] =>
     -- `<n>+h` = n + 0.5 s: before notBefore iff n < notBefore; after notAfter iff n ≥ notAfter, i.e. the verdict at
